@@ -39,6 +39,7 @@ LEVEL_TEXT = ("Every case is executed on the real compiler/indexer/dispatcher; t
               "split_predicate and the dynamic index maintenance; the dynamic part is an explicit-state search.")
 ASSUMPTIONS = ["the 80-line Python unifier (vx/model/grpe.py)", "driver transport", "clause/2 lists the database in order"]
 MIN_OUTCOMES = 3
+WORKER_KWARGS = {"horizon": 4.0}   # every request is a batch of millisecond goals
 
 BIG = 2 ** 70
 
@@ -108,7 +109,7 @@ F2_CALL_RED = [("var", "lit"), ("a", "lit"), ("b", "lit"), ("big", "lit"), ("big
 
 def bound_text(tier):
     if tier == "thorough":
-        return ("f1: clause lists of length <= 4 static(+twin)/assertz, <= 3 asserta/after-retract/bound-retract; "
+        return ("f1: clause lists of length <= 4 static(+twin)/assertz (length 4 without the computed-key head kinds), <= 3 asserta/after-retract/bound-retract; "
                 "f2: length <= 3 over 25 head shapes; seq: update sequences of length <= 4")
     return ("f1: clause lists of length <= 3 static(+twin)/assertz/asserta, <= 2 after-retract/bound-retract; "
             "f2: length <= 2 over 25 head shapes and length 3 over 9; seq: update sequences of length <= 3")
@@ -129,8 +130,9 @@ def shards(tier):
                 for i in range(len(heads)):
                     sh.append(("f1", mode, 3, i))
             else:
-                for i in range(len(heads)):
-                    for j in range(len(heads)):
+                h4 = [h for h in heads if h in H_STATIC or h == ("rat", "arith")]
+                for i in range(len(h4)):
+                    for j in range(len(h4)):
                         sh.append(("f1", mode, n, i, j))
     for mode in ("st", "dz"):
         sh.append(("f2", mode, "full", "short"))
@@ -306,6 +308,8 @@ def f1_preds(shard):
         for t in itertools.product(heads, repeat=2):
             yield [first] + list(t)
     else:
+        # length 4: the two extra computed-key head kinds of the dynamic alphabet are left out
+        heads = [h for h in heads if h in H_STATIC or h == ("rat", "arith")]
         f1, f2 = heads[shard[3]], heads[shard[4]]
         for t in itertools.product(heads, repeat=n - 2):
             yield [f1, f2] + list(t)
@@ -322,7 +326,6 @@ def f1_variants(mode, heads):
 
 def run_f1(w, mode, predlist, calls, acc, case_base):
     """predlist: list of head lists.  Creates every predicate, runs all calls, judges."""
-    w.new_machine()
     jobs = []  # (pred name, heads(all), variant j, live heads, live ids)
     ctext = []
     n = 0
@@ -335,8 +338,7 @@ def run_f1(w, mode, predlist, calls, acc, case_base):
                 ctext.append(static_text(name, heads, "t" + name))
             else:
                 ctext.append(":- dynamic(%s/2)." % name)
-    for part in px.chunked(ctext, 500):
-        grpe.consult_checked(w, "\n".join(part) + "\n")
+    consults = ["\n".join(part) + "\n" for part in px.chunked(ctext, 500)]
     cmds = []
     for (name, heads, j, lh, li) in jobs:
         goals = []
@@ -358,11 +360,18 @@ def run_f1(w, mode, predlist, calls, acc, case_base):
                 for ck in calls:
                     goals.append(call_goal("t" + name, ck))
         cmds.append(goals)
-    allres = grpe.run_multi(w, cmds)
+    allres = grpe.run_robust(w, consults, cmds)
     for (name, heads, j, lh, li), goals, rs in zip(jobs, cmds, allres):
         ids = list(range(1, len(heads) + 1))
         k = 0
         hl = [list(h) for h in heads]
+        if rs[0].abn:
+            acc.case(True, "abnormal")
+            acc.violation("f1:%s abnormal heads=%s%s what=%s" % (
+                mode, ",".join("%s/%s" % (KEYS[h[0]][0], h[1]) for h in heads),
+                "" if j is None else " retracted=%s/%s" % (KEYS[heads[j][0]][0], heads[j][1]), rs[0].abn),
+                dict(case_base, heads=hl, j=j), expected="normal termination", observed=rs[0].abn)
+            continue
         if mode != "st":
             k = check_setup(rs[0], acc, "f1:%s build" % mode, dict(case_base, heads=hl))
         if mode == "dr":
@@ -447,7 +456,6 @@ def f2_call_goal(name, ck):
 
 
 def run_f2(w, mode, alpha, predlist, calls, acc):
-    w.new_machine()
     ctext = []
     for n, heads in enumerate(predlist):
         name = "q%d" % n
@@ -456,8 +464,7 @@ def run_f2(w, mode, alpha, predlist, calls, acc):
                                    for i, (a, b) in enumerate(heads)))
         else:
             ctext.append(":- dynamic(%s/3)." % name)
-    for part in px.chunked(ctext, 500):
-        grpe.consult_checked(w, "\n".join(part) + "\n")
+    consults = ["\n".join(part) + "\n" for part in px.chunked(ctext, 500)]
     cmds = []
     for n, heads in enumerate(predlist):
         name = "q%d" % n
@@ -468,11 +475,17 @@ def run_f2(w, mode, alpha, predlist, calls, acc):
         for ck in calls:
             goals.append(f2_call_goal(name, ck))
         cmds.append(goals)
-    allres = grpe.run_multi(w, cmds)
+    allres = grpe.run_robust(w, consults, cmds)
     for heads, rs in zip(predlist, allres):
         hl = [list(h) for h in heads]
         k = 0
         case_base = {"fam": "f2", "mode": mode, "heads": hl}
+        if rs[0].abn:
+            acc.case(True, "abnormal")
+            acc.violation("f2:%s abnormal heads=%s what=%s" % (
+                mode, ";".join("%s,%s" % (KEYS[a][0], KEYS[b][0]) for a, b in heads), rs[0].abn),
+                case_base, expected="normal termination", observed=rs[0].abn)
+            continue
         if mode != "st":
             k = check_setup(rs[0], acc, "f2:%s build" % mode, case_base)
         for ci, ck in enumerate(calls):
@@ -559,23 +572,29 @@ def seq_goals(name, ops):
 
 
 def run_seq(w, seqs, acc, calls=CALLS_SEQ):
-    w.new_machine()
     names = ["u%d" % i for i in range(len(seqs))]
-    for part in px.chunked(names, 2000):
-        grpe.consult_checked(w, "\n".join(":- dynamic(%s/2)." % n for n in part) + "\n")
+    consults = ["\n".join(":- dynamic(%s/2)." % n for n in part) + "\n" for part in px.chunked(names, 2000)]
     cmds = []
     for name, ops in zip(names, seqs):
         goals = [seq_goals(name, ops), "clause(%s(_,I),true)" % name]
         for ck in calls:
             goals.append(call_goal(name, ck))
         cmds.append(goals)
-    allres = grpe.run_multi(w, cmds)
+    allres = grpe.run_robust(w, consults, cmds)
     states = set()
     for ops, rs in zip(seqs, allres):
         db = seq_model(ops)
         heads = [h for h, _ in db]
         ids = [i for _, i in db]
         case = {"fam": "seq", "ops": ops}
+        if rs[0].abn:
+            acc.case(True, "abnormal")
+            acc.transitions += 1
+            acc.violation("seq(%s) abnormal keys=%s what=%s" % (
+                "".join(o[0] for o in ops),
+                ",".join(KEYS[H_SEQ[o[1]][0]][0] if o[0] in "za" else str(o[1]) for o in ops), rs[0].abn),
+                case, expected="normal termination", observed=rs[0].abn)
+            continue
         check_setup(rs[0], acc, "seq(%s) updates" % "".join(o[0] for o in ops), case)
         acc.transitions += 1
         lst = rs[1]
@@ -630,24 +649,33 @@ def run_shard(w, shard, tier):
 def recheck(w, case, tier):
     acc = px.ShardAcc()
     fam = case["fam"]
+    # a case without "call" is a command-level observation (build failure, abnormal ending):
+    # re-run it with the complete call list, as the explorer did
     if fam == "f1":
         heads = [tuple(h) for h in case["heads"]]
         mode = case["mode"]
-        calls = [UNBOUND] + ([tuple(case["call"])] if "call" in case and tuple(case["call"]) != UNBOUND else [])
+        calls = [UNBOUND] + ([tuple(case["call"])] if tuple(case["call"]) != UNBOUND else []) if "call" in case else CALLS
         run_f1(w, mode, [heads], calls, acc, {"fam": "f1", "mode": mode})
-        for v in acc.violations:
-            c = v["case"]
-            if (c.get("j") == case.get("j") and c.get("call") == case.get("call")
-                    and bool(c.get("twin")) == bool(case.get("twin"))):
-                return v
-        return None
-    if fam == "f2":
+        vs = [v for v in acc.violations if v["case"].get("j") == case.get("j")]
+    elif fam == "f2":
         heads = [tuple(h) for h in case["heads"]]
-        calls = [tuple(tuple(c) for c in case["call"])] if "call" in case else [(("var", "lit"), ("var", "lit"))]
+        if "call" in case:
+            calls = [tuple(tuple(c) for c in case["call"])]
+        else:
+            cv = F2_CALL_FULL
+            calls = [(a, b) for a in cv for b in cv]
         run_f2(w, case["mode"], None, [heads], calls, acc)
+        vs = acc.violations
     else:
-        calls = [UNBOUND] + ([tuple(case["call"])] if "call" in case and tuple(case["call"]) != UNBOUND else [])
+        calls = [UNBOUND] + ([tuple(case["call"])] if tuple(case["call"]) != UNBOUND else []) if "call" in case else CALLS_SEQ
         run_seq(w, [case["ops"]], acc, calls=calls)
-        vs = [v for v in acc.violations if v["case"].get("call") == case.get("call")]
-        return vs[0] if vs else None
-    return acc.violations[0] if acc.violations else None
+        vs = acc.violations
+    for v in vs:
+        c = v["case"]
+        if c.get("call") == case.get("call") and bool(c.get("twin")) == bool(case.get("twin")):
+            return v
+    # the same command may now end abnormally as a whole
+    for v in vs:
+        if "call" not in v["case"]:
+            return v
+    return None
